@@ -108,6 +108,16 @@ class Exec(ExprMixin, CallMixin):
         elif isinstance(ty, TDict) and isinstance(ty.val, TRef) and idx == "1":
             k = z3.Const("wf!k", arr.range().domain())
             self.entry_axioms.append(z3.ForAll([r, k], z3.Implies(live, z3.And(arr[r][k] >= 0, arr[r][k] <= a0))))
+            # representation invariant of reference-valued dicts (as for dict values held in locals): exactly the keys of
+            # the key sequence are present (present = mapped to a non-null reference)
+            ks = z3.SeqSort(arr.range().domain())
+            eh = self.entry_heap
+            kkey = f"{fld}#0"
+            if kkey not in eh:
+                eh[kkey] = z3.Const(f"H!{kkey}", z3.ArraySort(z3.IntSort(), ks))
+            karr = eh[kkey]
+            self.entry_axioms.append(z3.ForAll([r, j], z3.Implies(z3.And(live, 0 <= j, j < z3.Length(karr[r])), arr[r][karr[r][j]] > 0)))
+            self.entry_axioms.append(z3.ForAll([r, k], z3.Implies(z3.And(live, arr[r][k] != 0), z3.Contains(karr[r], z3.Unit(k)))))
 
     # ------------------------------------------------------------------ obligations
     def oblige(self, st, goal, name, kind="assert", line=None, props=None):
@@ -831,9 +841,13 @@ class Exec(ExprMixin, CallMixin):
                             names.add(b.id)
                 elif isinstance(n, ast.Subscript) and isinstance(n.ctx, ast.Store):
                     b = n.value
+                    through_field = False
                     while isinstance(b, (ast.Attribute, ast.Subscript)):
+                        through_field = through_field or isinstance(b, ast.Attribute)
                         b = b.value
-                    if isinstance(b, ast.Name):
+                    # x[k] = v re-binds the (value) container held by the local x; x.f[k] = v writes the heap field f of the
+                    # object x refers to (havocked as a written field) and leaves the local x as it is
+                    if isinstance(b, ast.Name) and not (through_field and isinstance(st.locals.get(b.id), VRef)):
                         names.add(b.id)
         return names
 
